@@ -54,6 +54,11 @@ pub static WAIT_TID: AtomicU32 = AtomicU32::new(0);
 /// word must not flood the log (only the first WAIT_OPS_CAP operations of a wait are logged)
 pub static WAIT_OPS_LOGGED: AtomicU32 = AtomicU32::new(0);
 const WAIT_OPS_CAP: u32 = 48;
+/// free-running timing perturbation: at every protocol point, with probability JITTER/1000, the
+/// calling thread sleeps 0..255 us (seeded xorshift) - shakes the relative timing of owner, thread
+/// and kernel without controlling it
+pub static JITTER: AtomicU32 = AtomicU32::new(0);
+pub static JITTER_RNG: AtomicU64 = AtomicU64::new(0x9E37_79B9_7F4A_7C15);
 /// log protocol points (off for huge batches)
 pub static LOG_POINTS: AtomicBool = AtomicBool::new(true);
 
@@ -96,7 +101,29 @@ pub fn on_point(id: u32, arg: usize) {
             e.emit();
         }
     }
+    jitter();
     maybe_block(tid, id, arg);
+}
+
+#[inline]
+fn jitter() {
+    let j = JITTER.load(Ordering::Relaxed);
+    if j == 0 || ACTIVE.load(Ordering::Relaxed) {
+        return;
+    }
+    let mut x = JITTER_RNG.load(Ordering::Relaxed);
+    x ^= x << 13;
+    x ^= x >> 7;
+    x ^= x << 17;
+    JITTER_RNG.store(x, Ordering::Relaxed);
+    if ((x >> 20) % 1000) < j as u64 {
+        let us = (x >> 40) & 0xff;
+        if us < 8 {
+            sys::sched_yield();
+        } else {
+            sys::sleep_us(us);
+        }
+    }
 }
 
 pub fn maybe_block(tid: u32, id: u32, arg: usize) {
